@@ -1,5 +1,6 @@
 import CppUModel.Spec.Runner
 import CppUModel.Proofs.ListLemmas
+import CppUModel.Props.C03
 set_option linter.unusedSimpArgs false
 /-!
 Helper lemmas for the C01 theorems: the operational runner model (`Model/Runner.lean`) is
@@ -54,12 +55,62 @@ namespace Runner
     clocksOf (e :: l) = (Ev.clock? e).toList ++ clocksOf l := by
   cases h : Ev.clock? e <;> simp [clocksOf, h]
 
+/-! ## glue to property C03's model of the check macros -/
+
+/-- whether a `checkKind` statement fails, as C03's model of the macro computes it on the
+    harness' operands, is what the textbook rule says -/
+theorem outcome_fails (k : CheckKind) (pass : Bool) : (k.outcome pass).fails = k.failsWhen pass := by
+  cases k <;> cases pass <;> rfl
+
+/-- **the count of C03's model is the documented rule**: every check of the `assert*` family counts
+    exactly one (`Asserts.assert_family_counts_one`, `integer_macros_count_one`, …), a `CHECK_COMPARE`
+    that holds counts none (`Asserts.compare_pass_counts_zero`), one that does not counts one. -/
+theorem outcome_counted (k : CheckKind) (pass : Bool) : (k.outcome pass).counted = k.countsWhen pass := by
+  obtain ⟨hTrue, _, _, _, _, _, _, hPtr, hFptr, hBits, _, _, hStr, hStrN, hNoCase, hCont, hNoCaseCont, hBin⟩ :=
+    Asserts.assert_family_counts_one
+  cases k
+  case compare =>
+    cases pass
+    · exact (Asserts.compare_fail_counts_one _ rfl).1
+    · exact (Asserts.compare_pass_counts_zero _ rfl).1
+  case check => exact hTrue _
+  case checkText => exact hTrue _
+  case checkEqual => exact Asserts.CHECK_EQUAL_counts_one _
+  case longs => exact (Asserts.integer_macros_count_one 1 (if pass then 1 else 2) default default).1
+  case ulongs => exact (Asserts.integer_macros_count_one 1 (if pass then 1 else 2) default default).2.1
+  case longlongs => exact (Asserts.integer_macros_count_one 1 (if pass then 1 else 2) default default).2.2.1
+  case ulonglongs => exact (Asserts.integer_macros_count_one 1 (if pass then 1 else 2) default default).2.2.2.1
+  case bytes => exact (Asserts.integer_macros_count_one 0 0 ⟨Asserts.tyInt, 257⟩ ⟨Asserts.tyInt, if pass then 513 else 514⟩).2.2.2.2.1
+  case sbytes => exact (Asserts.integer_macros_count_one (-1) (if pass then -1 else 2) default default).2.2.2.2.2.1
+  case pointers => exact hPtr _ _
+  case fpointers => exact hFptr _ _
+  case doubles => exact Asserts.assertDoublesEqual_counts_one _ _ _ _
+  case strcmp => exact hStr _ _
+  case strncmp => exact hStrN _ _ _
+  case strcmpNocase => exact hNoCase _ _
+  case strcmpContains => exact hCont _ _
+  case strcmpNocaseContains => exact hNoCaseCont _ _
+  case memcmp0 => exact hBin _ _ _
+  case memcmp => exact hBin _ _ _
+  case bits => exact hBits _ _ _ 4
+  case enumsInt => exact Asserts.ENUMS_EQUAL_TYPE_counts_one _ _ _
+  case throws => exact Asserts.CHECK_THROWS_counts_one _
+  case cInt => exact (Asserts.integer_macros_count_one 1 (if pass then 1 else 2) default default).2.2.2.2.2.2.2.2.1
+  case cReal => exact Asserts.assertDoublesEqual_counts_one _ _ _ _
+  case cString => exact hStr _ _
+  case cPointer => exact hPtr _ _
+  case cMemcmp0 => exact hBin _ _ _
+  case cMemcmp => exact hBin _ _ _
+  case cBits => exact hBits _ _ _ 4
+  case checkC => exact (Asserts.integer_macros_count_one (if pass then 1 else 0) 0 default default).2.2.2.2.2.2.2.2.2.2.2.2.2.2.2.2.2.1
+
 /-! ## one phase -/
 
 /-- the failing checks among the executed statements (exceptions are recorded by the catch clauses) -/
 def Stmt.checkFailure (cfg : Cfg) (t : Test) : Stmt → Option FailRec
   | .failCpp loc msg => some (mkRec cfg t loc msg)
   | .failC loc msg => some (mkRec cfg t loc msg)
+  | .check k pass loc msg => if k.failsWhen pass then some (mkRec cfg t loc msg) else none
   | _ => none
 
 def checkFailures (cfg : Cfg) (t : Test) (p : List Stmt) : List FailRec :=
@@ -76,6 +127,9 @@ def exitOf (exc : Bool) : List Stmt → Exit
   | .throwOther :: rest => if exc then .exc .other else exitOf exc rest
   | .mark _ :: rest => exitOf exc rest
   | .checkPass :: rest => exitOf exc rest
+  | .check k pass _ _ :: rest =>
+    if k.failsWhen pass then (if k.isC then .longjmp else if exc then .exc .failed else .longjmp)
+    else exitOf exc rest
 
 /-- the record the catch clauses add for an escaping exception -/
 def excRecs (cfg : Cfg) (t : Test) : Exit → List FailRec
@@ -89,6 +143,8 @@ def excRecs (cfg : Cfg) (t : Test) : Exit → List FailRec
 @[simp] theorem term_failC (exc : Bool) (l : Loc) (m : String) : (Stmt.failC l m).terminates exc = true := rfl
 @[simp] theorem term_exitTest (exc : Bool) : Stmt.exitTest.terminates exc = true := rfl
 @[simp] theorem term_exitTestC (exc : Bool) : Stmt.exitTestC.terminates exc = true := rfl
+@[simp] theorem term_check (exc : Bool) (k : CheckKind) (pass : Bool) (l : Loc) (m : String) :
+    (Stmt.check k pass l m).terminates exc = k.failsWhen pass := rfl
 @[simp] theorem term_throwStd (exc : Bool) : Stmt.throwStd.terminates exc = exc := rfl
 @[simp] theorem term_throwOther (exc : Bool) : Stmt.throwOther.terminates exc = exc := rfl
 
@@ -105,6 +161,13 @@ def excRecs (cfg : Cfg) (t : Test) : Exit → List FailRec
     executed exc (.exitTest :: rest) = [.exitTest] := by simp [executed, Stmt.terminates]
 @[simp] theorem executed_exitTestC (exc : Bool) (rest : List Stmt) :
     executed exc (.exitTestC :: rest) = [.exitTestC] := by simp [executed, Stmt.terminates]
+theorem executed_check_fails (exc : Bool) (k : CheckKind) (pass : Bool) (l : Loc) (m : String) (rest : List Stmt)
+    (h : k.failsWhen pass = true) : executed exc (.check k pass l m :: rest) = [.check k pass l m] := by
+  simp [executed, h]
+theorem executed_check_passes (exc : Bool) (k : CheckKind) (pass : Bool) (l : Loc) (m : String) (rest : List Stmt)
+    (h : k.failsWhen pass = false) :
+    executed exc (.check k pass l m :: rest) = .check k pass l m :: executed exc rest := by
+  simp [executed, h]
 @[simp] theorem executed_throwStd_exc (rest : List Stmt) :
     executed true (.throwStd :: rest) = [.throwStd] := by simp [executed, Stmt.terminates]
 @[simp] theorem executed_throwStd_noexc (rest : List Stmt) :
@@ -122,7 +185,12 @@ theorem runStmts_marks (cfg : Cfg) (t : Test) (ph : Phase) (d : Int) :
     have ih := runStmts_marks cfg t ph d rest
     cases hexc : cfg.exceptions <;> simp only [hexc] at ih <;>
     simp only [marksOf] at ih ⊢ <;>
-    cases s <;> simp [runStmts, PhaseOut.cons, Ev.mark?, Stmt.markNo, ih, hexc, List.filterMap_cons]
+    (cases s with
+      | check k pass loc msg =>
+        cases hfw : k.failsWhen pass <;>
+          simp [runStmts, PhaseOut.cons, Ev.mark?, Stmt.markNo, ih, hexc, List.filterMap_cons, outcome_fails, outcome_counted, hfw, executed_check_fails, executed_check_passes,
+            Stmt.checkCount, Result.countChecks]
+      | _ => simp [runStmts, PhaseOut.cons, Ev.mark?, Stmt.markNo, ih, hexc, List.filterMap_cons])
 
 theorem runStmts_enters (cfg : Cfg) (t : Test) (ph : Phase) (d : Int) :
     ∀ (p : List Stmt) (res : Result) (hf : Bool),
@@ -132,7 +200,12 @@ theorem runStmts_enters (cfg : Cfg) (t : Test) (ph : Phase) (d : Int) :
   | s :: rest, res, hf => by
     have ih := runStmts_enters cfg t ph d rest
     cases hexc : cfg.exceptions <;>
-    cases s <;> simp [runStmts, PhaseOut.cons, Ev.enter?, Ev.summary?, Ev.ended?, ih, hexc]
+    (cases s with
+      | check k pass loc msg =>
+        cases hfw : k.failsWhen pass <;>
+          simp [runStmts, PhaseOut.cons, Ev.enter?, Ev.summary?, Ev.ended?, ih, hexc, outcome_fails, outcome_counted, hfw, executed_check_fails, executed_check_passes,
+            Stmt.checkCount, Result.countChecks]
+      | _ => simp [runStmts, PhaseOut.cons, Ev.enter?, Ev.summary?, Ev.ended?, ih, hexc])
 
 theorem runStmts_plain (cfg : Cfg) (t : Test) (ph : Phase) (d : Int) :
     ∀ (p : List Stmt) (res : Result) (hf : Bool), plainToksOf (runStmts cfg t ph d res hf p).evs = []
@@ -140,7 +213,12 @@ theorem runStmts_plain (cfg : Cfg) (t : Test) (ph : Phase) (d : Int) :
   | s :: rest, res, hf => by
     have ih := runStmts_plain cfg t ph d rest
     cases hexc : cfg.exceptions <;>
-    cases s <;> simp [runStmts, PhaseOut.cons, Ev.tok?, ih, hexc]
+    (cases s with
+      | check k pass loc msg =>
+        cases hfw : k.failsWhen pass <;>
+          simp [runStmts, PhaseOut.cons, Ev.tok?, ih, hexc, outcome_fails, outcome_counted, hfw, executed_check_fails, executed_check_passes,
+            Stmt.checkCount, Result.countChecks]
+      | _ => simp [runStmts, PhaseOut.cons, Ev.tok?, ih, hexc])
 
 theorem runStmts_failures (cfg : Cfg) (t : Test) (ph : Phase) (d : Int) :
     ∀ (p : List Stmt) (res : Result) (hf : Bool),
@@ -150,7 +228,12 @@ theorem runStmts_failures (cfg : Cfg) (t : Test) (ph : Phase) (d : Int) :
     have ih := runStmts_failures cfg t ph d rest
     simp only [checkFailures] at ih ⊢
     cases hexc : cfg.exceptions <;> simp only [hexc] at ih <;>
-    cases s <;> simp [runStmts, PhaseOut.cons, Ev.failure?, Stmt.checkFailure, ih, hexc, List.filterMap_cons]
+    (cases s with
+      | check k pass loc msg =>
+        cases hfw : k.failsWhen pass <;>
+          simp [runStmts, PhaseOut.cons, Ev.failure?, Stmt.checkFailure, ih, hexc, List.filterMap_cons, outcome_fails, outcome_counted, hfw, executed_check_fails, executed_check_passes,
+            Stmt.checkCount, Result.countChecks]
+      | _ => simp [runStmts, PhaseOut.cons, Ev.failure?, Stmt.checkFailure, ih, hexc, List.filterMap_cons])
 
 theorem runStmts_exit (cfg : Cfg) (t : Test) (ph : Phase) (d : Int) :
     ∀ (p : List Stmt) (res : Result) (hf : Bool),
@@ -159,7 +242,12 @@ theorem runStmts_exit (cfg : Cfg) (t : Test) (ph : Phase) (d : Int) :
   | s :: rest, res, hf => by
     have ih := runStmts_exit cfg t ph d rest
     cases hexc : cfg.exceptions <;> simp only [hexc] at ih <;>
-    cases s <;> simp [runStmts, PhaseOut.cons, exitOf, normalTerminator, ih, hexc]
+    (cases s with
+      | check k pass loc msg =>
+        cases hfw : k.failsWhen pass <;>
+          simp [runStmts, PhaseOut.cons, exitOf, normalTerminator, ih, hexc, outcome_fails, outcome_counted, hfw, executed_check_fails, executed_check_passes,
+            Stmt.checkCount, Result.countChecks]
+      | _ => simp [runStmts, PhaseOut.cons, exitOf, normalTerminator, ih, hexc])
 
 theorem runStmts_res (cfg : Cfg) (t : Test) (ph : Phase) (d : Int) :
     ∀ (p : List Stmt) (res : Result) (hf : Bool),
@@ -171,8 +259,15 @@ theorem runStmts_res (cfg : Cfg) (t : Test) (ph : Phase) (d : Int) :
     have ih := runStmts_res cfg t ph d rest
     simp only [checkFailures, checksOf] at ih ⊢
     cases hexc : cfg.exceptions <;> simp only [hexc] at ih <;>
-    cases s <;> simp [runStmts, PhaseOut.cons, Stmt.checkFailure, Stmt.isCheck, ih, hexc, List.filterMap_cons,
-      List.filter_cons, Result.countCheck, Result.countFailure] <;> omega
+    (cases s with
+      | check k pass loc msg =>
+        cases hfw : k.failsWhen pass <;>
+          simp [runStmts, PhaseOut.cons, Stmt.checkFailure, Stmt.checkCount, ih, hexc, List.filterMap_cons,
+            Result.countCheck, Result.countChecks, Result.countFailure, outcome_fails, outcome_counted, hfw,
+            executed_check_fails, executed_check_passes] <;> omega
+      | _ =>
+        simp [runStmts, PhaseOut.cons, Stmt.checkFailure, Stmt.checkCount, ih, hexc, List.filterMap_cons,
+          Result.countCheck, Result.countFailure] <;> omega)
 
 theorem runStmts_hasFailed (cfg : Cfg) (t : Test) (ph : Phase) (d : Int) :
     ∀ (p : List Stmt) (res : Result) (hf : Bool),
@@ -182,14 +277,25 @@ theorem runStmts_hasFailed (cfg : Cfg) (t : Test) (ph : Phase) (d : Int) :
     have ih := runStmts_hasFailed cfg t ph d rest
     simp only [checkFailures] at ih ⊢
     cases hexc : cfg.exceptions <;> simp only [hexc] at ih <;>
-    cases s <;> simp [runStmts, PhaseOut.cons, Stmt.checkFailure, ih, hexc, List.filterMap_cons]
+    (cases s with
+      | check k pass loc msg =>
+        cases hfw : k.failsWhen pass <;>
+          simp [runStmts, PhaseOut.cons, Stmt.checkFailure, ih, hexc, List.filterMap_cons, outcome_fails, outcome_counted, hfw, executed_check_fails, executed_check_passes,
+            Stmt.checkCount, Result.countChecks]
+      | _ => simp [runStmts, PhaseOut.cons, Stmt.checkFailure, ih, hexc, List.filterMap_cons])
 
 theorem exitOf_normal_iff (exc : Bool) : ∀ (p : List Stmt), exitOf exc p = .normal ↔ completes exc p = true
   | [] => by simp [exitOf, completes]
   | s :: rest => by
     have ih := exitOf_normal_iff exc rest
     simp only [completes] at ih ⊢
-    cases exc <;> cases s <;> simp [exitOf] <;> simpa using ih
+    cases exc <;>
+    (cases s with
+      | check k pass loc msg =>
+        cases hfw : k.failsWhen pass
+        · simpa [exitOf, hfw] using ih
+        · cases hc : k.isC <;> simp [exitOf, hfw, hc]
+      | _ => simp [exitOf] <;> simpa using ih)
 
 /-- the failures the property demands of a phase: its failing check, or the record of the
     exception that leaves it -/
@@ -200,7 +306,13 @@ theorem phaseFailures_eq (cfg : Cfg) (t : Test) : ∀ (p : List Stmt),
     have ih := phaseFailures_eq cfg t rest
     simp only [phaseFailures, checkFailures] at ih ⊢
     cases hexc : cfg.exceptions <;> simp only [hexc] at ih <;>
-    cases s <;> simp [exitOf, excRecs, Stmt.failure, Stmt.checkFailure, hexc, List.filterMap_cons, ih]
+    (cases s with
+      | check k pass loc msg =>
+        cases hfw : k.failsWhen pass <;>
+          simp [exitOf, excRecs, Stmt.failure, Stmt.checkFailure, hexc, List.filterMap_cons, ih, outcome_fails, outcome_counted, hfw, executed_check_fails, executed_check_passes,
+            Stmt.checkCount, Result.countChecks] <;>
+          (try (cases hc : k.isC <;> simp [hc]))
+      | _ => simp [exitOf, excRecs, Stmt.failure, Stmt.checkFailure, hexc, List.filterMap_cons, ih])
 
 /-! ## PlatformSpecificSetJmp around one phase -/
 
@@ -340,7 +452,13 @@ theorem try_phase (cfg : Cfg) (t : Test) (ph : Phase) (st : TSt) (before : List 
 theorem exitOf_noexc (p : List Stmt) (k : ExcKind) : exitOf false p ≠ .exc k := by
   induction p with
   | nil => simp [exitOf]
-  | cons s rest ih => cases s <;> simp [exitOf, ih]
+  | cons s rest ih =>
+    cases s with
+    | check k pass loc msg =>
+      cases hfw : k.failsWhen pass
+      · simpa [exitOf, hfw] using ih
+      · cases hc : k.isC <;> simp [exitOf, hfw, hc]
+    | _ => simp [exitOf, ih]
 
 theorem phaseOut_exit_noexc (cfg : Cfg) (t : Test) (ph : Phase) (st : TSt) (k : ExcKind)
     (hx : cfg.exceptions = false) : (phaseOut cfg t ph st).exit ≠ .exc k := by
@@ -1267,7 +1385,13 @@ theorem throwsOut_eq (exc : Bool) : ∀ (p : List Stmt),
   | [] => by simp [throwsOut, exitOf]
   | s :: rest => by
     have ih := throwsOut_eq exc rest
-    cases exc <;> cases s <;> simp [throwsOut, exitOf, ih]
+    cases exc <;>
+    (cases s with
+      | check k pass loc msg =>
+        cases hfw : k.failsWhen pass
+        · simp [throwsOut, exitOf, hfw, ih]
+        · cases hc : k.isC <;> simp [throwsOut, exitOf, hfw, hc]
+      | _ => simp [throwsOut, exitOf, ih])
 
 theorem exit_of_throwsOut {exc : Bool} {p : List Stmt} {k : ExcKind} (h : throwsOut exc p = some k) :
     exitOf exc p = .exc k ∧ (k = .std ∨ k = .other) := by
